@@ -110,12 +110,18 @@ def install_exec_shim():
     """Record every source text mashumaro hands to exec().  A module global named
     ``exec`` shadows the builtin in the four modules that call it; /repo is untouched."""
     import builtins
-    import mashumaro.codecs._builder  # noqa
-    import mashumaro.core.meta.code.builder as b
-    import mashumaro.core.meta.types.common as c
-    import mashumaro.core.meta.types.pack as p
-    import mashumaro.core.meta.types.unpack as u
+    import importlib
 
+    mods = []
+    for name in ("mashumaro.core.meta.code.builder", "mashumaro.core.meta.types.common", "mashumaro.core.meta.types.pack",
+                 "mashumaro.core.meta.types.unpack", "mashumaro.codecs._builder"):
+        try:
+            mods.append(importlib.import_module(name))
+        except Exception:  # a refactoring may move modules: source capture then simply sees less
+            pass
+    if not mods:
+        return
+    b = mods[0]
     if getattr(b, "_vf_shim", False):
         return
 
@@ -130,7 +136,7 @@ def install_exec_shim():
             return builtins.exec(code, g)
         return builtins.exec(code, g, l)
 
-    for m in (b, c, p, u):
+    for m in mods:
         m.exec = rec_exec
     b._vf_shim = True
 
